@@ -16,8 +16,8 @@ from checks import reapers_common as rc
 
 NSIM = {"quick": 150, "thorough": 1500}
 PER_PREFIX = {"quick": 4, "thorough": 6}
-MC = {"quick": ["Reapers_MC.cfg", "Reapers_MCLive.cfg", "Reapers_MCGrid.cfg", "Reapers_MCCluster.cfg"],
-      "thorough": ["Reapers_MCFull.cfg", "Reapers_MCDeep.cfg", "Reapers_MCGrid2.cfg", "Reapers_MCLive.cfg", "Reapers_MCCluster.cfg"]}
+MC = ["Reapers_MC.cfg", "Reapers_MCLive.cfg", "Reapers_MCGrid.cfg", "Reapers_MCCluster.cfg"]
+MC_BIG = ["Reapers_MCDeep.cfg", "Reapers_MCGrid2.cfg", "Reapers_MCFull.cfg"]     # thorough tier only
 
 
 def lifecycle_liveness_behaviours(run, rng):
@@ -57,11 +57,16 @@ def check(run):
                 "the real controllers; non-trivial = the real trace contains an effective NodeClaim delete by a reaper "
                 "(a guarded event of C16)")
     # ---- closed model: invariants, vacuity
-    cov = run.tier == "thorough"
-    zero = rc.closed_models(run, MC[run.tier], workers=2 if run.tier == "quick" else 4, coverage=cov,
-                            timeout=600 if run.tier == "quick" else 2400)
-    if cov and zero:
-        raise vlib.InfraError("vacuous closed model, actions never taken in any configuration: %s" % zero)
+    if run.tier == "quick":
+        rc.closed_models(run, MC, workers=2, timeout=600)
+    else:
+        # big configurations without coverage (it slows TLC several times); coverage on the small ones, whose union
+        # takes every action
+        rc.closed_models(run, MC_BIG, workers=4, timeout=3000, par=3)
+        zero = rc.closed_models(run, MC, workers=2, coverage=True, timeout=1200)
+        if zero:
+            raise vlib.InfraError("vacuous closed model, actions never taken in any configuration: %s" % zero)
+        run.notes.append("coverage: every action of Reapers.tla is taken in at least one closed-model configuration")
     weak = sorted(rc.WEAK)
     if run.tier == "quick":       # the pinned-tree mutation always, the others rotate with the seed
         rest = [w for w in weak if w != "Reapers_WeakGcLookup.cfg"]
